@@ -317,16 +317,34 @@ def add_links(p, links, observer=None):
     return out
 
 
-def make_parser(spec, observer=None):
-    """complete real parser (links registered, subcommand attached); returns (top, linked parser, link report)"""
+ALT_SPEC = {"args": [{"name": "p1", "type": "int", "default": 1}, {"name": "p2", "type": "int", "default": 2}], "groups": [],
+            "subclass": [], "subclass_list": [], "links": [{"sources": ["p1"], "target": "p2", "fn": "double"}]}
+
+
+def assemble(spec, observer=None, top_observer=None):
+    """complete real parser: links registered at every level, subcommands attached in the order of the spec;
+    returns (top, linked parser, link report of the linked parser, link report of the top parser of a tree)"""
     p, sp = build_parser(spec)
-    if sp is not None:
-        rep = add_links(sp, spec["sub"]["spec"].get("links", []), observer)
-        sc = p.add_subcommands()
-        sc.add_subcommand(spec["sub"]["name"], sp)
-        return p, sp, rep
-    rep = add_links(p, spec.get("links", []), observer)
-    return p, p, rep
+    if sp is None:
+        return p, p, add_links(p, spec.get("links", []), observer), []
+    rep = add_links(sp, spec["sub"]["spec"].get("links", []), observer)
+    rep_top = add_links(p, spec.get("toplinks", []), top_observer)
+    sc = p.add_subcommands()
+    alt = None
+    if spec.get("alt"):
+        alt, _ = build_parser(ALT_SPEC, top=False)
+        add_links(alt, ALT_SPEC["links"])
+    if alt is not None and spec["alt"] == "first":
+        sc.add_subcommand("alt", alt)
+    sc.add_subcommand(spec["sub"]["name"], sp)
+    if alt is not None and spec["alt"] != "first":
+        sc.add_subcommand("alt", alt)
+    return p, sp, rep, rep_top
+
+
+def make_parser(spec, observer=None):
+    """(top, linked parser, link report)"""
+    return assemble(spec, observer)[:3]
 
 
 def link_spec(spec):
@@ -439,11 +457,11 @@ def do_parse(p, case, tmpdir=None):
 def run_real(case):
     """everything observed on the real code for one case"""
     spec = case["spec"]
-    p, lp, rep = make_parser(spec)
+    p, lp, rep, rep_top = assemble(spec)
     env = case.get("env", {}) if case["entry"] != "env" else {}
     with EnvPatch(env), Capture() as cap:
         res = do_parse(p, case)
-    return {"parser": p, "lparser": lp, "links": rep, "res": res, "records": cap.records}
+    return {"parser": p, "lparser": lp, "links": rep, "top_links": rep_top, "res": res, "records": cap.records}
 
 
 # ---------------------------------------------------------------- key helpers (independent of the library)
@@ -615,15 +633,22 @@ def oracle(case, deep=True):
         elif r["error"] != "ValueError":
             fail("link_arguments(%s -> %s) raises %s instead of ValueError" % (l["sources"], l["target"], r["error"]))
 
-    p, sp = build_parser(spec)
-    if sp is not None:
-        rep = add_links(sp, lspec.get("links", []), observer)
-        p.add_subcommands().add_subcommand(spec["sub"]["name"], sp)
-        lp = sp
-    else:
-        rep = add_links(p, lspec.get("links", []), observer)
-        lp = p
+    top_prev = []
+
+    def top_observer(parser, l, r):
+        why = should_reject(l, top_prev)
+        if r["ok"]:
+            if why:
+                fail("link_arguments(%s -> %s) on the parent parser accepted although: %s" % (l["sources"], l["target"], ", ".join(why)))
+            top_prev.append(l)
+            if l["target"] in parser.required_args:
+                fail("link target %s of the parent parser is still in required_args" % l["target"])
+        elif r["error"] != "ValueError":
+            fail("link_arguments(%s -> %s) raises %s instead of ValueError" % (l["sources"], l["target"], r["error"]))
+
+    p, lp, rep, _ = assemble(spec, observer, top_observer)
     links = prev
+    topview = {k: v for k, v in spec.items() if k != "sub"}
     env = case.get("env", {}) if case["entry"] != "env" else {}
     with EnvPatch(env):
         res = do_parse(p, case)
@@ -649,6 +674,14 @@ def oracle(case, deep=True):
                         if not (got == rc[1] and type(got) is type(rc[1])):
                             fail("cfg[%s] = %r but compute_fn(%s) = %r" % (l["target"], got, ", ".join(l["sources"]), rc[1]), attr)
                             break
+            # --- the links of the parent parser of a subcommand (same invariant, one level up)
+            for l in top_prev:
+                rc = recompute(l, topview, cfg)
+                if rc is None:
+                    continue
+                if rc[0] != "value" or any(not (g == rc[1] and type(g) is type(rc[1])) for g in rc[2]):
+                    fail("parent parser: cfg[%s] = %r but compute_fn(%s) gives %r" % (l["target"], rc[2], ", ".join(l["sources"]), rc[1]),
+                         link_attribution(l, top_prev))
             # --- the configuration returned has been validated WITH the link targets in place
             try:
                 p.validate(cfg)
@@ -667,6 +700,9 @@ def oracle(case, deep=True):
                 d = yaml.safe_load(out) if fmt == "yaml" else json.loads(out)
                 if fmt == "yaml":
                     text = out
+                for l in top_prev:
+                    if isinstance(d, dict) and dig(d, l["target"])[0]:
+                        fail("link target %s of the parent parser appears in the %s dump" % (l["target"], fmt))
                 d = sub_dict(spec, d if isinstance(d, dict) else {})
                 if fmt == "yaml" and spec.get("sub") and not d and links and set_attr is None:
                     set_attr = F_EMPTYSUB   # every entry of the subcommand section was a link target: `fit: {}` is dumped
@@ -717,6 +753,13 @@ def oracle(case, deep=True):
                     finally:
                         shutil.rmtree(d, True)
         # --- the option of a plain target is rejected
+        for l in top_prev:
+            if case["entry"] != "none":
+                try:
+                    got = p.parse_args(["--%s=3" % l["target"], spec["sub"]["name"]])
+                    fail("the option of link target %s of the parent parser is accepted: %r" % (l["target"], got))
+                except ArgumentError:
+                    pass
         pre = [spec["sub"]["name"]] if spec.get("sub") else []
         for l in links:
             if target_kind(l) != "plain" or case["entry"] == "none":
@@ -791,6 +834,14 @@ def gen_spec(rng, allow_sub=True, top=True):
         inner.pop("default_env", None)
         spec = {"default_env": rng.random() < 0.4, "args": [{"name": "top", "type": "int", "default": 0}], "groups": [], "subclass": [],
                 "subclass_list": [], "links": [], "sub": {"name": "fit", "spec": inner}}
+        if rng.random() < 0.6:      # the parent parser has links of its own (else: no _links_group there)
+            spec["args"] += [{"name": "top2", "type": "int", "default": rng.randint(1, 9)}, {"name": "top3", "type": "int", "default": 5}]
+            spec["toplinks"] = [rng.choice([{"sources": ["top"], "target": "top2", "fn": None}, {"sources": ["top", "top3"], "target": "top2", "fn": "sum"},
+                                            {"sources": ["top3"], "target": "top", "fn": "double"}])]
+            if rng.random() < 0.3:
+                spec["toplinks"].append({"sources": ["top2"], "target": "top3", "fn": None})     # a chain: refused
+        if rng.random() < 0.4:
+            spec["alt"] = rng.choice(["first", "last"])
     return spec
 
 
@@ -1038,6 +1089,18 @@ def gen_case(rng, spec):
     case = {"spec": spec, "entry": entry}
     feed_argv = []
     gfeed = []
+    top_argv, top_cfg, top_feed = [], {}, []
+    if subname:
+        ttargets = {l["target"] for l in spec.get("toplinks", [])}
+        for a in spec["args"]:
+            if rng.random() < 0.4:
+                v = rng.randint(0, 40)
+                if entry == "args" and a["name"] not in ttargets:
+                    top_argv.append("--%s=%d" % (a["name"], v))
+                    top_feed.append(["argv", a["name"], v])
+                elif entry in ("string", "path", "object"):
+                    top_cfg[a["name"]] = v
+                    top_feed.append(["object" if entry == "object" else "config", a["name"], v])
     if entry == "args" and not subname and rng.random() < 0.3:
         for g in lspec.get("groups", []):
             if GROUPS[g][0] in ("class", "dataclass") and rng.random() < 0.7:
@@ -1052,7 +1115,7 @@ def gen_case(rng, spec):
             cfg_tok = (["--cfg=" + json.dumps(wrapped)], [["config", k2, v2] for k2, v2 in feed_cfgopt])
         if subname:
             # the config option belongs to the top parser: before the subcommand name
-            seq = ([cfg_tok] if cfg_tok else []) + [([subname], [])] + seq
+            seq = ([cfg_tok] if cfg_tok else []) + [(top_argv, [])] + [([subname], [])] + seq
         elif cfg_tok:
             seq.insert(rng.randint(0, len(seq)), cfg_tok)
         argv = []
@@ -1061,12 +1124,14 @@ def gen_case(rng, spec):
             feed_argv += fe
         case["argv"] = argv
     if entry in ("string", "path", "object"):
-        case["config"] = {subname: config} if subname else config
+        case["config"] = dict(top_cfg, **{subname: config}) if subname else config
         if subname and not config and rng.random() < 0.5:
-            case["config"] = {subname: {}}
+            case["config"] = dict(top_cfg, **{subname: {}})
     if env:
         case["env"] = env
     chan = "object" if entry == "object" else "config"
+    if top_feed:
+        case["top_feed"] = top_feed
     case["feed"] = [["env", k, v] for k, v in feed_env] + [[chan, k, v] for k, v in feed_cfg] + gfeed + feed_argv
     return case
 
@@ -1189,6 +1254,91 @@ def model_lines(case, real):
             ActionLink.strip_link_target_keys(real["lparser"], c)
             lines.append({"op": "strip", "cfg": enc(root)})
             expect.append(("K4-strip", {"s": enc(c)}))
+    if spec.get("sub"):
+        tl, te = tree_lines(case, real, aliasing)
+        lines += tl
+        expect += te
+    return lines, expect
+
+
+def real_tree_json(p):
+    """a real parser with its subcommand parsers as the model's tree"""
+    st = real_parser_state(p)
+    node = {"actions": st["actions"], "required": st["required"], "group": hasattr(p, "_links_group"), "dest": "", "subreq": False, "choices": []}
+    act = getattr(p, "_subcommands_action", None)
+    if act is not None:
+        node["dest"] = act.dest
+        node["subreq"] = bool(act._required)
+        node["choices"] = [[name, real_tree_json(sub)] for name, sub in act.choices.items()]
+    return node
+
+
+def tree_lines(case, real, aliasing):
+    """driver lines for a parser with subcommands: registration at every level (T1), apply_parsing_links of the PARENT
+    parser with its recursion and early returns (T3), strip_link_target_keys with its recursion (T4), whole parse (T2)"""
+    from jsonargparse._link_arguments import ActionLink
+
+    spec = case["spec"]
+    name = spec["sub"]["name"]
+    lines, expect = [], []
+    table = fn_table()
+    # fresh parsers, subcommands attached first, then the same registrations as `assemble`
+    p0, sp0 = build_parser(spec)
+    sc = p0.add_subcommands()
+    alt0 = None
+    if spec.get("alt"):
+        alt0, _ = build_parser(ALT_SPEC, top=False)
+    if alt0 is not None and spec["alt"] == "first":
+        sc.add_subcommand("alt", alt0)
+    sc.add_subcommand(name, sp0)
+    if alt0 is not None and spec["alt"] != "first":
+        sc.add_subcommand("alt", alt0)
+    lines.append({"op": "newtree", "tree": real_tree_json(p0)})
+    expect.append(("T1-new", {"parser": norm_state(real_parser_state(p0)), "group": False}))
+    regs = [([name], sp0, l, spec["sub"]["spec"]) for l in spec["sub"]["spec"].get("links", [])]
+    regs += [([], p0, l, {k: v for k, v in spec.items() if k != "sub"}) for l in spec.get("toplinks", [])]
+    if alt0 is not None:
+        regs += [(["alt"], alt0, l, ALT_SPEC) for l in ALT_SPEC["links"]]
+    for path, parser, l, view in regs:
+        r = add_links(parser, [l])[0]
+        lines.append({"op": "linkat", "path": path, "sources": l["sources"], "coerce": coerce_flags(l, view), "target": l["target"],
+                      "fn": table[l["fn"]][1] if l.get("fn") else None})
+        expect.append(("T1-link", {"r": "ok" if r["ok"] else r["error"],
+                                   "node": {"parser": norm_state(real_parser_state(parser)), "group": hasattr(parser, "_links_group")}}))
+    res = real["res"]
+    typed_out = res[0] == "err" and res[1] == "invalid"
+    # T2: whole parse through parse_args (the token selects the subcommand)
+    sub_flat = is_flat(spec["sub"]["spec"])
+    top_acc = [l for l, r in zip(spec.get("toplinks", []), real.get("top_links", [])) if r["ok"]]
+    if case["entry"] == "args" and sub_flat and "feed" in case and not aliasing and not typed_out \
+            and not none_source(spec["sub"]["spec"], case, accepted_links(spec, real["links"])) \
+            and not none_source({"args": spec["args"], "groups": []}, {"feed": case.get("top_feed", [])}, top_acc):
+        inputs = default_feed({"args": spec["args"], "groups": []}) + case.get("top_feed", []) + [["argv", "subcommand", name]]
+        inputs += [[c, name + "." + k, v] for c, k, v in default_feed(spec["sub"]["spec"]) + case["feed"]]
+        lines.append({"op": "parsetree", "inputs": wire_inputs(inputs)})
+        expect.append(("K2-parse", {"ok": enc(drop_cfg(res[1]))} if res[0] == "ok" else {"err": res[1]}))
+    # T3: the parent parser's apply_parsing_links, guards included
+    for rec in real["records"]:
+        if rec["parser"] is not real["parser"]:
+            continue
+        if rec["off"]:
+            lines.append({"op": "applytree", "off": True, "cfg": rec["pre"]})
+            expect.append(("K3-apply", {"ok": rec["post"]} if rec["error"] is None else {"err": err_kind_exc(rec["error"])}))
+            continue
+        if aliasing or (rec["error"] is not None and err_kind_exc(rec["error"]) == "invalid"):
+            continue
+        lines.append({"op": "applytree", "cfg": rec["pre"]})
+        expect.append(("K3-apply", {"ok": rec["post"]} if rec["error"] is None else {"err": err_kind_exc(rec["error"])}))
+    # T4: strip with its recursion
+    if res[0] == "ok":
+        c = res[1].clone()
+        try:
+            ActionLink.strip_link_target_keys(real["parser"], c)
+            exp = {"s": enc(c)}
+        except Exception:  # noqa: BLE001
+            exp = {"err": True}
+        lines.append({"op": "striptree", "cfg": enc(res[1])})
+        expect.append(("T4-strip", exp))
     return lines, expect
 
 
@@ -1234,7 +1384,15 @@ def none_source(spec, case, links):
 
 def compare_line(kind, exp, got):
     """None when model and real agree, else a description"""
-    if kind == "K1-new":
+    if kind == "T1-new":
+        ok = got is not None and norm_state(got["parser"]) == exp["parser"]
+    elif kind == "T1-link":
+        node = got.get("node") or {}
+        ok = (got.get("r") == ("ok" if exp["r"] == "ok" else exp["r"])) and node.get("group") == exp["node"]["group"] \
+            and norm_state(node.get("parser") or {"actions": [], "required": [], "links": []}) == exp["node"]["parser"]
+    elif kind == "T4-strip":
+        ok = ("err" in got) if "err" in exp else ("s" in got and same(got["s"], exp["s"], ordered=True))
+    elif kind == "K1-new":
         ok = norm_state(got) == exp
     elif kind == "K1-link":
         if exp["r"] != "ok":
